@@ -148,6 +148,31 @@ def chain_system(rng):
     return dict(ncomp=ncomp, qs=qs, ode=True, typed=True, force_implicit={z})
 
 
+def const_chain_system(rng):
+    """deep chains of computed constants: k; c0 = 2 k; c_{j+1} = c_j + j or c_j * c_i; an algebraic (or, with a state,
+    rate) equation on top of the chain; 1-3 components"""
+    ncomp = rng.randint(1, 3)
+    ode = rng.random() < 0.5
+    qs = []
+    def add(kind, dim='one', init=None, rhs=None):
+        q = Quantity(len(qs), kind, dim); q.home = rng.randrange(ncomp); q.init = init; q.rhs = rhs; qs.append(q); return q.idx
+    if ode:
+        add('voi', 'time')
+    k = add('const', 'one', init=rng.choice(['3', '2', '1.5']))
+    cs = [add('cconst', 'one', rhs=('TIMES', ('cn', '2'), ('q', k)))]
+    for j in range(rng.randint(2, 5)):
+        a = ('q', cs[-1])
+        b = ('cn', str(j + 1)) if rng.random() < 0.6 else ('q', rng.choice(cs))
+        cs.append(add('cconst', 'one', rhs=(rng.choice(['PLUS', 'TIMES', 'MINUS']), a, b) if rng.random() < 0.5 else (rng.choice(['PLUS', 'TIMES']), b, a)))
+    if ode:
+        x = add('state', 'one', init=rng.choice(['1', '2']), rhs=('q', cs[-1]))
+        add('alg', 'one', rhs=('PLUS', ('q', x), ('q', cs[-2])))
+    else:
+        add('alg', 'one', rhs=('PLUS', ('q', cs[-1]), ('q', cs[0])))
+    finish_members(qs, rng)
+    return dict(ncomp=ncomp, qs=qs, ode=ode, typed=True)
+
+
 def scale(units):
     return UNITS[units][1]
 
@@ -227,6 +252,15 @@ def is_dynamic(qs, q, seen=None):
     if q.kind in ('state', 'voi'):
         return True
     return q.rhs is not None and any(is_dynamic(qs, qs[k], seen) for k in leaves(q.rhs, set()))
+
+
+class Reversed:
+    """a `perm` for to_cellml that lists everything in reverse (every dependency comes after what needs it)"""
+    def shuffle(self, l):
+        l.reverse()
+
+    def random(self):
+        return 0.0
 
 
 def to_cellml(sysd, rng, nla=False, perm=None, rename=None, implicit=0.0):
